@@ -42,7 +42,7 @@ def exec_bms(scn):
     import tempfile
     r = rng("c04-" + scn["id"])
     v = scn["variant"]
-    lines = concretize(scn["file"], r, merge=(v % 2 == 1), shuffle=(v % 3 != 0), lower=False)
+    lines = concretize(scn["file"], r, merge=(v % 2 == 1), shuffle=(v % 3 != 0), lower=False, late_headers=(v % 7 == 5))
     ftok = lex(lines)
     rec = {"id": scn["id"] + "/read", "op": "read", "cls": f"bms.read.{scn['layout']}.{'ordered' if v % 3 == 0 else 'shuffled'}",
            "layout": scn["layout"], "exc": "", "file": ftok, "chart": {}}
